@@ -376,6 +376,10 @@ def make_probe(desc, k):
             stmts = [A.Declare(V(x), A.Null()), A.Declare(V(y), A.Null()), A.Assign(pat, src)]
         elif pos == "for":
             stmts = [A.For(A.lst(V("_"), pat), A.lst(src), [A.pr(S("body"))])]
+        elif pos == "fn_def_only":
+            stmts = [A.FuncStmt("df%d" % k, [pat, V("zz%d" % k)], False, [A.pr(S("body"))]), A.pr(S("defined"))]
+            if shape == "distinct_ok":
+                return {"stmts": stmts, "expect": ["defined"], "tag": "dup_name_control", "what": "distinct names, definition only"}
         else:
             stmts = [A.FuncStmt("df%d" % k, [pat], False, [A.pr(S("body"))]), A.ExprStmt(A.call("df%d" % k, src))]
         if shape == "distinct_ok":
@@ -457,7 +461,7 @@ def run(rep, tier):
         descs.append(("misuse", m))
     for shape in ["flat_list", "nested_first", "nested_last", "two_nested", "object_values", "object_nested_list_first", "list_then_object",
                   "object_then_rest", "list_rest_same", "distinct_ok"]:
-        for pos in ("decl", "assign", "for", "fn"):
+        for pos in ("decl", "assign", "for", "fn", "fn_def_only"):
             descs.append(("dupname", shape, pos))
     rng.shuffle(descs)
     batch.run(rep, "seedverif.checks.c13", descs, "C13", oracle="abstract pattern matcher + round-trip laws")
